@@ -415,6 +415,10 @@ mut('x7-map-wrapper-under-ptr', ['C18','C08'], ['X7'], [('values/value.go',
 			return mapValue{wrapperValue{value}}
 		}''')], 'a map wrapper is built around a pointer: its reflect accessors panic')
 
+mut('t6-exclusion-from-object-right', ['C19'], ['T6'], [('parser/scanner.go',
+ '''	tagRight := []rune(delims[3])''',
+ '''	tagRight := []rune(delims[1])''')], 'what a tag may not contain is derived from the wrong delimiter')
+
 out = '/verif/selftest/mutants'
 for d in os.listdir(out):
     if d.startswith('own-'):
